@@ -98,6 +98,10 @@ Lin(c) == /\ Open /\ Trace[l].t # "call"
 \* second linearisation point of a loader-backed Get that missed: the loaded value is installed unless it was superseded
 Install(c) == /\ Open /\ Trace[l].t # "call"
               /\ pend[c] # None /\ pend[c].lin /\ pend[c].op = "ldget" /\ ~pend[c].inst /\ pend[c].miss /\ pend[c].started /\ ~pend[c].dirty
+              \* C02 itself: the Get behaves as ONE operation of a sequential map - miss, load, store.  A write or removal of the key that
+              \* took effect after the miss (even before the in-flight record was registered, where it cancels nothing) and before the
+              \* store cannot be ordered on either side of such a Get: the loaded value is handed to the caller only (seeded C02k)
+              /\ ~pend[c].touched
               /\ map' = [map EXCEPT ![Trace[pend[c].ri].k] = Trace[pend[c].ri].rv]
               \* the installation is a write of the key for every other load of it
               /\ pend' = Dirty([pend EXCEPT ![c].inst = TRUE], {Trace[pend[c].ri].k}, c)
